@@ -467,8 +467,21 @@ def solo_part(ctx, pid, cov):
                       failing_input=True, what="the value the reader returned while the writer was frozen is not explained by any linearization")
 
 def reentrant_scenarios():
-    """Range / Items visitors that call back into the same container (delete, store, insert, clear), alone and against a writer"""
+    """Range / Items visitors that call back into the same container (delete, store, insert, clear), alone and against a writer;
+    evicted callbacks that call back into the cache (from Delete, GetAndDelete, DeleteExpired)"""
     out, n = [], 0
+    for cont in ("Cache", "CacheOf_int", "CacheOf_str"):
+        for nkeys in (2, 30, 100):
+            setup = [{"op": "Set", "k": k, "v": 100 + k, "d": 1000} for k in range(1, nkeys + 1)] + [{"op": "Set", "k": 500, "v": 5, "d": -2000000000}, {"op": "Advance", "dt": 5000}]
+            for ops in ([{"op": "DeleteExpired"}], [{"op": "Delete", "k": 500}], [{"op": "GetAndDelete", "k": 500}], [{"op": "DeleteExpired"}, {"op": "Count"}]):
+                for other in (None, {"op": "Set", "k": 1, "v": 999, "d": -2000000000}, {"op": "DeleteExpired"}):
+                    for seed in (1, 2):
+                        n += 1
+                        out.append(dict(id="recb_%d" % n, container=cont, cb=True, cb_reenter="get", setup=setup,
+                                        threads=[ops] + ([[other]] if other else []), sched={"kind": "random", "seed": seed},
+                                        layout=False, max_steps=60000))
+                        if other is None:
+                            break
     for cont in ("Map", "MapOf_int", "MapOf_str", "Cache", "CacheOf_int", "CacheOf_str"):
         cache = cont.startswith("Cache")
         st = (lambda k, v: {"op": "Set", "k": k, "v": v, "d": -2000000000}) if cache else (lambda k, v: {"op": "Store", "k": k, "v": v})
@@ -489,7 +502,9 @@ def check_C13():
     ctx = Ctx("C13"); cov = {}
     broken = proof_part(ctx, "props/C13.v", ["proofs/X_basic.v", "proofs/X_inv.v", "proofs/X_c13.v", "proofs/X_inst.v", "XMachine.v"], cov)
     n = N(ctx, 1200, 20000)
-    sched_part(ctx, "C13", cov, [("Map", n, ["-prefill", "73", "-clear", "40"]), ("MapOf_int", n, ["-hasher", "const", "-prefill", "125", "-clear", "40"]),
+    from . import solo
+    fam = solo.resize_families(ctx.tier, [("Map", None), ("MapOf_int", "default"), ("MapOf_int", "const"), ("MapOf_str", "default")])
+    sched_part(ctx, "C13", cov, extra=[("resize frozen / writer parked / shrink request frozen (directed)", fam)], sets=[("Map", n, ["-prefill", "73", "-clear", "40"]), ("MapOf_int", n, ["-hasher", "const", "-prefill", "125", "-clear", "40"]),
                                  ("MapOf_str", n, ["-prefill", "121"]), ("Map", n, ["-threads", "4", "-ops", "4", "-sched", "mix"]),
                                  ("MapOf_int", n, ["-hasher", "sameidx", "-threads", "4", "-ops", "4", "-sched", "pct"]),
                                  ("Cache", n, []), ("CacheOf_int", n, []), ("CacheOf_str", n // 2, ["-sched", "pct"])])
